@@ -1,6 +1,12 @@
 (** Model of the scheduler's what-if statements (property C13):
       pkg/scheduler/framework/statement.go
-        Evict, Pipeline (not-on-node / found-on-node+update / un-evict branch /
+        Evict (with the repair 83a0ca3 + bce7109: a task that is already Releasing
+        - the passed object, or the session's own object of that UID, sessionStatus
+        - is left alone: no status change, no node update, no deallocate event, no
+        operation recorded, IsVirtualStatus untouched, nil returned; the test comes
+        after the job and node look-ups, as in the code; the model identifies pod
+        objects by UID, so the passed object IS the session's own one;
+        [evict_before_repair] is the function without that test), Pipeline (not-on-node / found-on-node+update / un-evict branch /
         move-to-different-GPU branch), Allocate, unevict, unpipeline (+ the
         RestoreTaskEntry repair of c93da65), unallocate, Unevict
         (undoEarliestValidOperation), ConvertAllAllocatedToPipelined, Checkpoint,
@@ -239,7 +245,22 @@ Definition get_pod (s : sess) (p : positive) := alookup p (s_pods s).
 
 (** * Primitive operations.  Each returns the new session and [true] when the Go function returned nil. *)
 
-(** Statement.Evict *)
+(** Statement.Evict past the look-ups and the status test: [p] is the task, [n] its node *)
+Definition evict_on (s : sess) (pid : positive) (p : pod) (nid : positive) (n : node) : sess * bool :=
+  let '(s1, ok) := update_status s p Releasing in
+  if negb ok then (s, false) else
+  let p1 := at_node (set_st p Releasing) nid in
+  match update_task n (p_task p1) with
+  | Err => (s1, false)
+  | Ok n' =>
+      let s2 := ev_dealloc (put_node s1 nid n') p1 in
+      let s3 := push s2 (OEvict pid (p_status p) nid (p_groups p) (p_virt p)) in
+      (put_pod s3 (set_vt p1 true), true)
+  end.
+
+(** Statement.Evict: job not found / node not found are errors; a task that is already Releasing
+    (evicted by an earlier operation of this or of an earlier statement, or terminating anyway) is
+    not evicted again: nothing changes, nothing is recorded, nil is returned (83a0ca3, bce7109) *)
 Definition evict (s : sess) (pid : positive) : sess * bool :=
   match get_pod s pid with
   | None => (s, false)
@@ -248,21 +269,31 @@ Definition evict (s : sess) (pid : positive) : sess * bool :=
       | Some _, Some nid =>
           match alookup nid (s_nodes s) with
           | None => (s, false)
-          | Some n =>
-              let '(s1, ok) := update_status s p Releasing in
-              if negb ok then (s, false) else
-              let p1 := at_node (set_st p Releasing) nid in
-              match update_task n (p_task p1) with
-              | Err => (s1, false)
-              | Ok n' =>
-                  let s2 := ev_dealloc (put_node s1 nid n') p1 in
-                  let s3 := push s2 (OEvict pid (p_status p) nid (p_groups p) (p_virt p)) in
-                  (put_pod s3 (set_vt p1 true), true)
-              end
+          | Some n => if status_eqb (p_status p) Releasing then (s, true) else evict_on s pid p nid n
           end
       | _, _ => (s, false)
       end
   end.
+
+(** Statement.Evict as it was before 83a0ca3 / bce7109: no test of the task's status, a Releasing task is
+    "evicted" again (second operation, second deallocate event, second Cache.Evict at Commit) *)
+Definition evict_before_repair (s : sess) (pid : positive) : sess * bool :=
+  match get_pod s pid with
+  | None => (s, false)
+  | Some p =>
+      match alookup (t_job (p_task p)) (s_jobs s), p_node p with
+      | Some _, Some nid =>
+          match alookup nid (s_nodes s) with
+          | None => (s, false)
+          | Some n => evict_on s pid p nid n
+          end
+      | _, _ => (s, false)
+      end
+  end.
+
+(** the status test of Evict read off the session: the pod is in the session and Releasing *)
+Definition releasing_in (s : sess) (pid : positive) : bool :=
+  match get_pod s pid with Some p => status_eqb (p_status p) Releasing | None => false end.
 
 (** Statement.unevict (always returns nil) *)
 Definition unevict (s : sess) (pid : positive) (prev : status) (nid : positive) (pg : list positive) (pv : bool) : sess :=
@@ -605,6 +636,16 @@ Definition step (fails : nat -> bool) (s : sess) (c : cmd) : sess * list api_cal
 Definition run (fails : nat -> bool) (s : sess) (prog : list cmd) : sess :=
   fold_left (fun acc c => fst (step fails acc c)) prog s.
 
+(** the commands with Statement.Evict as it was before the repair 83a0ca3 / bce7109 (only the Evict command
+    differs; used by the [_before_repair] witness of Properties/C13.v) *)
+Definition step_before_repair (fails : nat -> bool) (s : sess) (c : cmd) : sess * list api_call :=
+  match c with
+  | Evict p => if s_stuck s then (s, []) else (fst (evict_before_repair s p), [])
+  | _ => step fails s c
+  end.
+Definition run_before_repair (fails : nat -> bool) (s : sess) (prog : list cmd) : sess :=
+  fold_left (fun acc c => fst (step_before_repair fails acc c)) prog s.
+
 (** * Projection: what another component or a later decision can read *)
 Record pview := mkPV { v_status : status; v_node : option positive; v_groups : list positive; v_virt : bool }.
 Record psview := mkPSV { sv_aa : Z; sv_au : Z; sv_alive : Z; sv_pending : Z; sv_gated : Z }.
@@ -626,13 +667,22 @@ Definition project (s : sess) : dump :=
 
     [wf_cmd] is evaluated on the state the command is applied to.  The status
     clauses are the documented preconditions (Allocate on Pending pods, Pipeline
-    on Pending or virtually evicted pods, Evict on active allocated pods, Unevict
-    on a virtually evicted pod, rollback only to an outstanding checkpoint,
-    ConvertAllAllocatedToPipelined only on a statement holding allocations and
-    nominations and followed by Commit).  "At most once" is a clause
-    on the log: a pod is evicted only when it has no valid evict entry, placed
-    only when it has no placing entry, and not evicted after it was placed.  The
-    remaining clauses say that the snapshot is consistent where the command
+    on Pending or virtually evicted pods, Unevict on a virtually evicted pod,
+    rollback only to an outstanding checkpoint, ConvertAllAllocatedToPipelined
+    only on a statement holding allocations and nominations and followed by
+    Commit).
+    Evict may be applied to ANY pod of the session that is Releasing - evicted
+    earlier by this statement (once or several times, un-evicted in between or
+    not), evicted by an earlier statement, or terminating in the snapshot: since
+    83a0ca3 / bce7109 the code leaves such a pod alone - and to active allocated pods that
+    this statement has not placed.  There is no clause "the pod has no valid evict
+    entry yet" any more: that a pod which is not Releasing and has no placing entry
+    has no valid evict entry is an invariant of well-formed statements
+    (Proofs/Session.v [EI]), not a restriction on the program.
+    "At most once" for placements stays a clause on the log: a pod is placed only
+    when it has no placing entry, and not evicted after it was placed (the
+    repair does not touch that: a Pipelined / Allocated pod is not Releasing).
+    The remaining clauses say that the snapshot is consistent where the command
     reads it (the node's copy of the pod equals the job's pod, index buckets of
     the pod's status are populated, the node's pod map is sorted); the
     correspondence check evaluates [wf_prog] on every generated program whose
@@ -716,19 +766,22 @@ Definition wf_cmd (tok : task -> bool) (stk : list nat) (conv : bool) (s : sess)
     | Evict pid =>
         match get_pod s pid with
         | Some p =>
-            Pos.eqb (p_id p) pid && tok (p_task p) && active_allocated (p_status p) && indexed s p
-            && no_valid_evict (s_log s) pid && negb (has_placing (s_log s) pid)
-            && match p_node p with
-               | Some nid => match alookup nid (s_nodes s) with
-                             | Some n => sortedb (n_pods n) && fresh_on p nid
-                                         && match alookup pid (n_pods n) with
-                                            | Some c => task_eqb c (p_task p)
-                                            | None => false
-                                            end
-                             | None => false
-                             end
-               | None => false
-               end
+            (* already evicted or terminating: Evict leaves the pod alone *)
+            status_eqb (p_status p) Releasing
+            ||
+            (Pos.eqb (p_id p) pid && tok (p_task p) && active_allocated (p_status p) && indexed s p
+             && negb (has_placing (s_log s) pid)
+             && match p_node p with
+                | Some nid => match alookup nid (s_nodes s) with
+                              | Some n => sortedb (n_pods n) && fresh_on p nid
+                                          && match alookup pid (n_pods n) with
+                                             | Some c => task_eqb c (p_task p)
+                                             | None => false
+                                             end
+                              | None => false
+                              end
+                | None => false
+                end)
         | None => false
         end
     | Pipeline pid nid gs upd =>
